@@ -188,6 +188,56 @@ Theorem C02_in_sync_tdh_example : forall running ps2, exists sk prev' opened',
                    out = word_msgs (its_cfg running) sk ExampleT.badtdh ++ more /\ has_err (4096 + 64 + 60) 40 out.
 Proof. exact (ExampleT.example_insync_tdh (conj eq_refl (conj eq_refl eq_refl))). Qed.
 
+(* THE IHW POSITION: the first word of a data page.  A link that conforms up to a data page (complete heartbeat frames, the pages of the next
+   frame before it -- packets left open across pages included), then a page whose FIRST word is ANY word w, whose second word is a TDH
+   (so that the payload is cut as its data format says: finding F12) and whose other words are arbitrary; ANY packets after.  The
+   validator reaches w in the state a page starts in, at packet offset + 64, having reported nothing before, and its messages for w
+   open the report and are never retracted. *)
+Theorem C02_in_sync_ihw_position : forall ld, wf_link_rdh ld = true -> l_system ld = Gen.Facts.its_system_id -> (l_format ld = 0 \/ l_format ld = 2) ->
+  forall running hbfs1 ihs1 h hbfs2 pgs1 pg pgs2 ips1 ip ips2 w second tl pad ps1 p ps2,
+    l_hbfs ld = hbfs1 ++ h :: hbfs2 -> Forall2 (its_hbf_ok (l_format ld)) hbfs1 ihs1 ->
+    h_pages h = pgs1 ++ pg :: pgs2 -> pages_ok h true None (ips1 ++ ip :: ips2) ->
+    map pg_payload pgs1 = map (fun q => layout (l_format ld) (page_words q) (ip_pad q)) ips1 ->
+    Forall gw (w :: second :: tl) -> W_tdh second -> (pad <= 15)%nat ->
+    pg_payload pg = layout (l_format ld) (w :: second :: tl) pad ->
+    map strip ps1 = flat_map (render_hbf ld) hbfs1 ++ render_pages ld h 0 pgs1 ->
+    strip p = (render_rdh ld h (N.of_nat (length pgs1)) 0 pg, pg_payload pg) ->
+    c_off p + 64 + 16 < 18446744073709551616 ->
+    exists sk, page_start_fsm (cs_fsm sk) /\ pos_of sk = c_off p + 64 /\
+      exists out more, run_validator (its_cfg running) (ps1 ++ p :: ps2) = Ok out /\ out = word_msgs (its_cfg running) sk w ++ more.
+Proof. exact (c02_insync_link_ihw (conj eq_refl (conj eq_refl eq_refl))). Qed.
+(* what w draws there: where only an IHW can stand EVERY word that is no sane IHW draws [E30]; in a choice state an IHW-identified
+   word that breaks an IHW rule draws [E30] (other identifiers: C02_in_sync_unknown_identifier_at_choice's rule, [E990]/[E992]) *)
+Theorem C02_in_sync_ihw_fault : forall c sk w more, (cs_fsm sk = S_InitialIHW \/ cs_fsm sk = S_IHW_ByDdw0 \/ cs_fsm sk = S_cIHW) ->
+  ihw_sanity w <> [] -> has_err (pos_of sk) 30 (word_msgs c sk w ++ more).
+Proof. exact insync_ihw_fault_single. Qed.
+Theorem C02_in_sync_ihw_fault_after_packet : forall c sk w more, is_choice_state (cs_fsm sk) = true ->
+  nb 9 w = Gen.Facts.ihw_id -> ihw_sanity w <> [] -> has_err (pos_of sk) 30 (word_msgs c sk w ++ more).
+Proof. exact insync_ihw_fault_choice. Qed.
+
+(* THE DDW0 POSITION: the only word of the stop page of a heartbeat frame whose data pages conform.  ANY word w there, ANY packets after:
+   the validator reaches w in a choice state (a DDW0, a new TDH or an IHW may follow), at packet offset + 64, having reported nothing
+   before; its messages for w open the report and are never retracted. *)
+Theorem C02_in_sync_ddw0_position : forall ld, wf_link_rdh ld = true -> l_system ld = Gen.Facts.its_system_id -> (l_format ld = 0 \/ l_format ld = 2) ->
+  forall running hbfs1 ihs1 h hbfs2 ips w pad ps1 p ps2,
+    l_hbfs ld = hbfs1 ++ h :: hbfs2 -> Forall2 (its_hbf_ok (l_format ld)) hbfs1 ihs1 ->
+    pages_ok h true None ips -> ips <> [] -> map pg_payload (h_pages h) = map (fun q => layout (l_format ld) (page_words q) (ip_pad q)) ips ->
+    gw w -> (pad <= 15)%nat -> pg_payload (h_stop h) = layout (l_format ld) [w] pad ->
+    map strip ps1 = flat_map (render_hbf ld) hbfs1 ++ render_pages ld h 0 (h_pages h) ->
+    strip p = (render_rdh ld h (N.of_nat (length (h_pages h))) 1 (h_stop h), pg_payload (h_stop h)) ->
+    c_off p + 64 + 16 < 18446744073709551616 ->
+    exists sk, is_choice_state (cs_fsm sk) = true /\ pos_of sk = c_off p + 64 /\
+      exists out more, run_validator (its_cfg running) (ps1 ++ p :: ps2) = Ok out /\ out = word_msgs (its_cfg running) sk w ++ more.
+Proof. exact (c02_insync_link_ddw0 (conj eq_refl (conj eq_refl eq_refl))). Qed.
+(* what w draws there: a DDW0-identified word that breaks a DDW0 rule: [E60]; an identifier that is none of TDH / IHW / DDW0: [E990]/[E992] *)
+Theorem C02_in_sync_ddw0_fault : forall c sk w more, is_choice_state (cs_fsm sk) = true ->
+  nb 9 w = Gen.Facts.ddw0_id -> ddw0_sanity w <> [] -> has_err (pos_of sk) 60 (word_msgs c sk w ++ more).
+Proof. exact insync_ddw0_fault. Qed.
+Theorem C02_in_sync_unknown_identifier_in_choice_state : forall c sk w more, is_choice_state (cs_fsm sk) = true ->
+  nb 9 w <> Gen.Facts.tdh_id -> nb 9 w <> Gen.Facts.ihw_id -> nb 9 w <> Gen.Facts.ddw0_id ->
+  has_err (pos_of sk) 990 (word_msgs c sk w ++ more) \/ has_err (pos_of sk) 992 (word_msgs c sk w ++ more).
+Proof. exact (insync_unknown_id_choice_state (conj eq_refl (conj eq_refl eq_refl))). Qed.
+
 (* FROM THE VALIDATOR TO THE END OF THE RUN.  The detection theorems above are about one validator's pass.  For ONE WHOLE `check` RUN
    on a well-framed input (any number of units, any interleaving, any filter, any display option; provisos as in C05_whole_run): every
    error message a unit's validator emits in its pass over the unit's packets is stored in the final state of the run -- at ITS
@@ -204,7 +254,7 @@ Theorem C02_whole_run_reported : forall c pkts ff s shown ex id ms e,
 Proof.
   exact (fun c pkts ff s shown ex id ms e H1 H2 H3 H4 H5 =>
            c02_reported c pkts (eq_refl : Gen.Facts.cdp_offset_sampled_after = true) (eq_refl : Gen.Facts.error_sort_when_muted = true)
-                        H1 H2 H3 H4 H5 ff s shown ex id ms e).
+                        H1 H2 H3 (or_intror H4) H5 ff s shown ex id ms e).
 Qed.
 
 Print Assumptions C02_rdh_sanity_reported.
@@ -238,3 +288,9 @@ Print Assumptions C02_in_sync_tdh_fault.
 Print Assumptions C02_in_sync_no_tdh_where_continuation_is_due.
 Print Assumptions C02_in_sync_unknown_identifier_at_choice.
 Print Assumptions C02_in_sync_tdh_example.
+Print Assumptions C02_in_sync_ihw_position.
+Print Assumptions C02_in_sync_ihw_fault.
+Print Assumptions C02_in_sync_ihw_fault_after_packet.
+Print Assumptions C02_in_sync_ddw0_position.
+Print Assumptions C02_in_sync_ddw0_fault.
+Print Assumptions C02_in_sync_unknown_identifier_in_choice_state.
